@@ -125,8 +125,11 @@ def run(ctx):
     sections = sections_of(binary)
     recs = run_sections(ctx, binary, sections, "rec")
     c06.sample(ctx, [x for x in recs if '"w":2' in x[1]][::97] + recs[:50])
-    c06.selftest(ctx, recs, JUDGE, "c01self", corrupt, 60)
-    report(ctx, c06.judge(ctx, recs, JUDGE, "c01"))
+    bads = c06.judge(ctx, recs, JUDGE, "c01")
+    report(ctx, bads)
+    if not bads:
+        # vacuity guard of the judge (presupposes correct records: only when all were accepted)
+        c06.selftest(ctx, recs, JUDGE, "c01self", corrupt, 60)
     ctx.traces_validated += ctx.extra.get("judge_chunks", 0)
     ctx.extra["records"] = len(recs)
     ctx.extra["sections"] = sections
